@@ -182,17 +182,20 @@ def check(case):
 
 @st.composite
 def ext_case(draw, kind):
-    n = draw(st.sampled_from([1, 1, 1, 2, 3]))
+    n = draw(st.sampled_from([1, 1, 1, 1, 2, 2, 3, 15, 16, 31]))      # 16 x 8 = 128 and 31 x 8 = 248 octets: one-octet length edges
     octets = b''.join(KINDS[kind](draw) for _ in range(n))
     return {'fam': 'ext', 'kind': kind, 'octets': octets.hex(), 'send': draw(st.integers(0, 3)) == 0}
 
 
 std_value = st.one_of(st.sampled_from(sorted(rc.WELL_KNOWN_COMMUNITIES)), st.sampled_from([0, 0xFFFFFFFF, 0xFFFF0006, 0xFFFEFFFF, 0x00010000, 65535]),
                       vs.u32)
-std_case = st.lists(std_value, min_size=1, max_size=5).map(
+std_case = st.one_of(st.lists(std_value, min_size=1, max_size=5), st.lists(std_value, min_size=1, max_size=5),
+                     st.sampled_from([31, 32, 63]).flatmap(lambda n: st.lists(std_value, min_size=n, max_size=n))).map(
     lambda vals: {'fam': 'std', 'kind': 'well-known' if any(v in rc.WELL_KNOWN_COMMUNITIES for v in vals) else 'numeric',
                   'octets': b''.join(struct.pack('!I', v) for v in vals).hex(), 'send': len(vals) == 1})
-large_case = st.lists(st.tuples(vs.u32, vs.u32, vs.u32), min_size=1, max_size=4).map(
+_large = st.tuples(vs.u32, vs.u32, vs.u32)
+large_case = st.one_of(st.lists(_large, min_size=1, max_size=4), st.lists(_large, min_size=1, max_size=4),
+                       st.sampled_from([10, 11, 21]).flatmap(lambda n: st.lists(_large, min_size=n, max_size=n))).map(
     lambda vals: {'fam': 'large', 'kind': 'big' if any(x >= 2 ** 31 for t in vals for x in t) else 'small',
                   'octets': b''.join(struct.pack('!III', *t) for t in vals).hex(), 'send': len(vals) == 1})
 
